@@ -1311,6 +1311,32 @@ func stripSensitiveHeadersOnRedirect(req *Request, initialHost []byte, redirectU
 	req.Header.Del(HeaderProxyAuthenticate)
 	req.Header.Del(HeaderProxyAuthorization)
 	req.Header.Del(HeaderWWWAuthenticate)
+
+	if req.Header.disableNormalizing {
+		// With header name normalizing disabled Del matches the exact
+		// spelling only, but header names are case-insensitive: credentials
+		// set as e.g. "authorization" must not be forwarded either.
+		h := req.Header.h
+		for i := 0; i < len(h); {
+			if isSensitiveRedirectHeader(h[i].key) {
+				n := len(h) - 1
+				h[i], h[n] = h[n], h[i]
+				h = h[:n]
+				continue
+			}
+			i++
+		}
+		req.Header.h = h
+	}
+}
+
+func isSensitiveRedirectHeader(key []byte) bool {
+	return caseInsensitiveCompare(key, strAuthorization) ||
+		caseInsensitiveCompare(key, strCookie) ||
+		caseInsensitiveCompare(key, s2b(HeaderCookie2)) ||
+		caseInsensitiveCompare(key, s2b(HeaderProxyAuthenticate)) ||
+		caseInsensitiveCompare(key, s2b(HeaderProxyAuthorization)) ||
+		caseInsensitiveCompare(key, s2b(HeaderWWWAuthenticate))
 }
 
 // shouldStripSensitiveHeadersOnRedirect defines the trust boundary for
